@@ -478,6 +478,47 @@ pub fn run(c: &Ctx) {
             c.judge("fs", &json!({"populated": false, "ops": ops}), check_fs(&FsCase { populated: false, ops: ops.clone() }));
         });
     }
+    // (h) more directories than a 16-bit counter holds (66 000 in one parent, and spread three levels deep): the
+    // traversing calls, sorted and unsorted, return them all
+    {
+        let n = 66_000usize;
+        for shape in ["flat", "three-levels"] {
+            let m = Memfs::new();
+            let built = catch(|| {
+                for i in 0..n {
+                    if i % 4096 == 0 {
+                        mark("big", &format!("{} build {}", shape, i));
+                    }
+                    let p = if shape == "flat" { format!("/big/d{}", i) } else { format!("/big/{}/{}/{}", i % 41, (i / 41) % 41, i / 1681) };
+                    let _ = m.mkdir_p(&p);
+                }
+            });
+            let want_min = n; // at least the leaves (the spread shape has inner directories on top)
+            let mut forms: Vec<(&str, Box<dyn Fn() -> Result<usize, String> + '_>)> = vec![
+                ("all_dirs", Box::new(|| m.all_dirs("/big").map(|v| v.len()).map_err(|e| e.to_string()))),
+                ("all_paths", Box::new(|| m.all_paths("/big").map(|v| v.len()).map_err(|e| e.to_string()))),
+                ("entries.sort_by_name", Box::new(|| m.entries("/big").map(|e| e.sort_by_name().into_iter().filter(|x| x.is_ok()).count().saturating_sub(1)).map_err(|e| e.to_string()))),
+                ("entries.dirs_first", Box::new(|| m.entries("/big").map(|e| e.dirs_first().into_iter().filter(|x| x.is_ok()).count().saturating_sub(1)).map_err(|e| e.to_string()))),
+                ("entries", Box::new(|| m.entries("/big").map(|e| e.into_iter().filter(|x| x.is_ok()).count().saturating_sub(1)).map_err(|e| e.to_string()))),
+                ("chmod_b.recurse", Box::new(|| m.chmod_b("/big").and_then(|b| b.all(0o750).recurse().exec()).map(|_| usize::MAX).map_err(|e| e.to_string()))),
+                ("all_files", Box::new(|| m.all_files("/big").map(|v| v.len() + usize::MAX / 2).map_err(|e| e.to_string()))),
+            ];
+            for (name, f) in forms.drain(..) {
+                c.eval(1);
+                c.nontrivial(fp(&("big", shape, name)));
+                c.class("more-than-65535-directories");
+                mark("big", &format!("{} {}", shape, name));
+                let res = match (&built, catch(|| f())) {
+                    (Err(p), _) => Err(Failure::new("panic|mkdir_p|many-directories", p.clone())),
+                    (_, Err(p)) => Err(Failure::new(format!("panic|{}|many-directories", name), format!("{} directories ({}): {}", n, shape, p))),
+                    (_, Ok(Err(e))) => Err(Failure::new(format!("err|{}|many-directories", name), format!("{} directories ({}): {}", n, shape, e))),
+                    (_, Ok(Ok(k))) if k < want_min => Err(Failure::new(format!("incomplete|{}|many-directories", name), format!("{} directories ({}): {} returned", n, shape, k))),
+                    _ => Ok(()),
+                };
+                c.judge("big", &json!([shape, name]), res);
+            }
+        }
+    }
     // (g) rendering the instance (Display / Debug / clone) while another thread keeps changing it: neither side may
     // end up waiting for the other for good (a rendering that re-enters the lock per entry does, as soon as a writer
     // queues in between). The calling thread is registered with the watchdog; a dead-locked round is reported.
